@@ -90,10 +90,11 @@ def make_data(spec):
 class FSrc(io.BytesIO):
     def __init__(self, data):
         super().__init__(data); self.log = []; self.pos = 0; self.pulls = 0
+    force_empty = False   # the next read returns b'' although data is left (a transient empty read)
     def read(self, size=-1):
         self.pulls += 1
         try:
-            c = super().read(size)
+            c = super().read(0 if self.force_empty else size)
         except Exception as e:
             e._c06_src = '<source>'; raise
         self.log.append(c); self.pos += len(c)
@@ -221,9 +222,19 @@ def run_session(c):
     out = [state_str(fi, w, order, recs)]
     viol = []
     closed = False
+    transient = set(c.get('transient', []))
+    # reference for the expected format: a FRESH real inspector fed, alone and outside the wrapper, the chunks the
+    # source hands out (finished only when the wrapper legitimately finishes: close() / StopIteration of the source)
+    ref = None
+    if expected in recs:
+        try: ref = fi.ALL_FORMATS[expected]()
+        except Exception: ref = None
+    whole = data if kind == 'f' else b''.join(chunks)
+    delivered = bytearray(); clean = True
     for k, op in enumerate(c['ops']):
         pulls0, nlog0 = src.pulls, len(src.log)
         exc = None; chunk = None
+        if kind == 'f': src.force_empty = k in transient
         try:
             if op == 1: w.close(); closed = True
             elif op == 0: chunk = next(w)
@@ -239,7 +250,16 @@ def run_session(c):
         # ---------------- the property, on this call
         if op == 1:
             if exc is not None: viol.append('op %d: close() raised %s' % (k, canon(exc)))
+            if ref is not None:
+                try: ref.finish()
+                except Exception: ref = None
             continue
+        # after k reads without exception the reader holds exactly the first bytes of the source
+        if exc is not None: clean = False
+        elif clean:
+            delivered += chunk
+            if bytes(delivered) != whole[:len(delivered)]:
+                viol.append('op %d: the bytes delivered so far are not the first %d bytes of the source' % (k, len(delivered)))
         if src.pulls - pulls0 != 1:
             viol.append('op %d: the wrapper read its source %d times in one call' % (k, src.pulls - pulls0))
         got = len(src.log) > nlog0
@@ -263,6 +283,33 @@ def run_session(c):
                 viol.append('op %d: the expected inspector failed with %s but the reader got another exception (%s)' % (k, canon(exp_fail['exc']), canon(exc)))
             elif not (type(exc).__name__ == 'ImageFormatError' and exp_fail is not None):
                 viol.append('op %d: %s reached the reader without a failure / mismatch of the expected inspector' % (k, canon(exc)))
+        # the expected inspector's failure / mismatch must be its OWN: the same as when it is fed these chunks alone
+        if ref is not None:
+            if got:
+                r_exc = None; r_cm = False
+                try: ref.eat_chunk(src.log[-1])
+                except Exception as e: r_exc = e
+                try: r_cm = bool(ref.complete and not ref.format_match)
+                except Exception: ref = None
+                w_call = exp_calls[-1] if exp_calls else None
+                if w_call is not None and getattr(w_call['exc'], '_c06_injected', False):
+                    ref = None          # an injected fault: the two inspectors are no longer in the same state
+                elif ref is not None:
+                    r_desc = ('raises %s' % canon(r_exc)) if r_exc is not None else ('is complete without matching' if r_cm else 'neither fails nor is complete without matching')
+                    if w_call is None:
+                        if (r_exc is not None or r_cm) and exc is None:
+                            viol.append('op %d: a fresh %s inspector fed the same chunks alone %s, but the chunk was delivered' % (k, expected, r_desc))
+                    else:
+                        w_cls = canon(w_call['exc']) if w_call['exc'] is not None else None
+                        r_cls = canon(r_exc) if r_exc is not None else None
+                        w_cm = bool(w_call['c'] and not w_call['m']) if w_cls is None else False
+                        if w_cls != r_cls or (w_cls is None and w_cm != r_cm):
+                            w_desc = ('raised %s' % w_cls) if w_cls else ('was complete without matching' if w_cm else 'did not fail')
+                            viol.append('op %d: inside the wrapper the expected %s inspector %s (the reader got %s), but a fresh %s inspector fed the same chunks alone %s'
+                                        % (k, expected, w_desc, ('E' + canon(exc)) if exc is not None else 'the chunk', expected, r_desc))
+            elif exc is not None and type(exc).__name__ == 'StopIteration' and getattr(exc, '_c06_src', None) == '<source>':
+                try: ref.finish()
+                except Exception: ref = None
     # a failed (non-expected) inspector is never fed again
     for name, st in recs.items():
         if name == expected: continue
@@ -326,7 +373,8 @@ def encode(c):
     exp = c.get('expected')
     al = c.get('allowed')
     return ['sess', c['kind'], 'N' if exp is None else 'S' + exp, 'N' if al is None else 'L' + ''.join(',' + n for n in al),
-            ''.join(',' + n for n in order), data, list(c.get('lens') or []), list(c['ops'])] + [list(s) for s in scripts]
+            ''.join(',' + n for n in order), data, list(c.get('lens') or []),
+            [10 if (k in set(c.get('transient', [])) and op >= 9) else op for k, op in enumerate(c['ops'])]] + [list(s) for s in scripts]
 
 def project(c, io_):
     return io_.split(' ## ')[0]
@@ -420,6 +468,27 @@ def gen_cases(rng, tier):
     # boundary: empty source, no faults
     for kind in kinds:
         yield session(rng, {'t': 'zeros', 'n': 0, 'seed': 0}, 64, kind, None, None, [])
+    # an empty read in the MIDDLE of the stream (read(0), a transient empty read of the source, an empty chunk of an
+    # iterator) followed by more data: with every expectation, no faults (then with a fault elsewhere)
+    for rep in range(2 if tier == 'quick' else 12):
+        for e in exps:
+            for kind in kinds:
+                t = rng.choice(SMALL_T); cs = rng.choice([100, 128, 200, 256, 300])
+                spec = {'t': t, 'n': rng.choice([1024, 1500, 2048]), 'seed': rng.randrange(50)}
+                nch = (spec['n'] + cs - 1) // cs
+                at = rng.randrange(1, max(2, min(nch, 4)))
+                c = {'op': 'sess', 'kind': kind, 'data': spec, 'expected': e, 'allowed': None, 'oseed': rng.randrange(1000),
+                     'faults': [] if rep % 2 == 0 else [rand_fault(rng, [n for n in names if n != e] or names)]}
+                if kind == 'f':
+                    ops = [10 + cs] * at + [10 + cs if rep % 3 == 1 else 10] + [10 + cs] * (nch - at + 1)
+                    if rep % 3 == 1: c['transient'] = [at]
+                    c['lens'] = []
+                    if rng.random() < 0.5: ops.append(1)
+                else:
+                    lens = [cs] * at + [0] + [cs] * (nch - at)
+                    c['lens'] = lens; ops = [0] * (len(lens) + 1)
+                c['ops'] = ops
+                yield c
     # fault-free runs: every template x every expectation
     reps = 1 if tier == 'quick' else 6
     for _ in range(reps):
